@@ -401,6 +401,30 @@ pub fn for_each_input(cfg: &crate::RunCfg, label: &str, plan: &RxPlan, f: &mut d
             });
         }
     }
+    // (a'') packets with the IC bit set that carry a plausible message integrity check before the PEC:
+    // CRC-32C / CRC-32 of the message in either byte order, computed from the transport header, the
+    // message-type byte or the body onwards. The decoder must reject every one of them (IC set).
+    for b in &bases {
+        if b.len() < 10 || b.len() > 120 || b[8] & 0x80 != 0 {
+            continue;
+        }
+        for (poly, start, big) in [(0x82F6_3B78u32, 4usize, true), (0x82F6_3B78, 8, false), (0x82F6_3B78, 8, true), (0x82F6_3B78, 9, false), (0xEDB8_8320, 8, false), (0xEDB8_8320, 4, true)] {
+            item!({
+                let mut p = b[..b.len() - 1].to_vec();
+                p[8] |= 0x80;
+                let c = crate::refmodel::crc::crc32_reflected(poly, &p[start..]);
+                p.extend_from_slice(&if big { c.to_be_bytes() } else { c.to_le_bytes() });
+                p.push(0);
+                // variants: consistent byte count + PEC, or a deliberately wrong PEC
+                fix_count_and_pec(&mut p);
+                if rng.chance(1, 3) {
+                    let l = p.len();
+                    p[l - 1] ^= 0x3C;
+                }
+                p
+            });
+        }
+    }
     // (c) field sweeps
     if plan.field_sweep {
         for b in &bases {
